@@ -20,7 +20,8 @@ RULE = ('sector/arc correspondence: Sector::points/contains, Arc::points (row bi
         'hypothesis |n - 1024 u| <= 3 and Union/Intersection/EntirePlane choice against f64 at every whole degree, all '
         'whole-degree pairs, 1e5 (quick) / 2e7 (thorough) random f32 (start, sweep) pairs, quick: every 256th f32 bit pattern in +-1440 deg (residue class rotating with VERIF_SEED, 9e6 angles per build), thorough: EVERY f32 bit pattern in +-1440 deg; measured worst eps is part of every result line (2.12 f32 / 9.85 fixed_point); the same on a second harness binary built with --features fixed_point (eps 10, plus a model correspondence batch with the normals of that build); |sweep| >= 360 deg -> EntirePlane and '
         'sector = circle, arc = ring; every sector/arc point within 1.5 px of the swept angle and every deeper circle point '
-        'present, d up to 128.')
+        'present, d up to 128 - each clause evaluated on Sector::points(), Sector::contains() over box+2, the pixels()/draw() of a fill-only '
+        'styled sector, Arc::points() and the pixels()/draw() of a stroke-1 styled arc.')
 PARTIAL = [
     'fixed_point build: the trig hypothesis is a THEOREM (Properties/C18_trigfixed.v: C18_trigfixed_hypothesis, eps = 10, for Angle '
     'values within +-1_900_000 I16F16 bits = +-1661 deg, start and end) about the exact integer model coq/Model/Trigfixed.v; '
@@ -246,6 +247,11 @@ def search(tier, rng):
         for j, w in enumerate([-359, -270, -181, -180, -100, -54, -2, 0, 1, 33, 89, 90, 135, 179, 180, 200, 306, 355, 360, 720]):
             d = [9, 24, 63, 128, 40][(s + j) % 5]
             out.append(J('p_sec_within', 0, 0, d, D(s), D(w)))
+    # small diameters (threshold correction d <= 4), every observation (points, contains, filled pixels, arc)
+    for d in range(0, 10):
+        for s0 in (0, 45, 200):
+            for w in (360, -360, 400, 90, -135, 200, -300, 30):
+                out.append(J('p_sec_within', -3, 2, d, D(s0), D(w)))
     n = 1500 if tier == 'quick' else 30000
     for _ in range(n):
         k = rng.random()
